@@ -46,7 +46,19 @@ def folds_case(model, c, f, depth=0):
     return None
 
 
-def case_patterns(name):
+def case_patterns(name, thorough=False):
+    if thorough:
+        import itertools
+        letters = [i for i, ch in enumerate(name) if ch.lower() != ch.upper()]
+        if len(letters) <= 11:
+            out = set()
+            for mask in itertools.product((False, True), repeat=len(letters)):
+                chars = list(name.lower())
+                for i, up in zip(letters, mask):
+                    if up:
+                        chars[i] = chars[i].upper()
+                out.add(''.join(chars))
+            return sorted(out)
     alt = ''.join(ch.upper() if i % 2 else ch.lower() for i, ch in enumerate(name))
     alt2 = ''.join(ch.lower() if i % 2 else ch.upper() for i, ch in enumerate(name))
     first = name[:1].swapcase() + name[1:]
@@ -54,7 +66,7 @@ def case_patterns(name):
     return sorted({name, name.lower(), name.upper(), name.title(), name.swapcase(), name.capitalize(), alt, alt2, first, last})
 
 
-def name_check_table(c, f, name):
+def name_check_table(c, f, name, thorough=False):
     """spellings of the canonical name (all case patterns of case_patterns) that the class's _check_name rejects, decided by
     evaluating _check_name and the helpers it calls (sa.miniexec); None when the code leaves the evaluable subset"""
     from ..miniexec import Evaluator, Raised, Unsupported, class_call_hook
@@ -65,7 +77,7 @@ def name_check_table(c, f, name):
     if len(params) != 1:
         return None
     rejected = []
-    for v in case_patterns(name):
+    for v in case_patterns(name, thorough):
         try:
             Evaluator({params[0]: v}, hook, None).function(f.node)
         except Raised:
@@ -106,7 +118,7 @@ def check(ctx, report):
         f = c.resolve('_check_name')
         report.count('C18.R1')
         report.touch(f)
-        rejected = name_check_table(c, f, name)
+        rejected = name_check_table(c, f, name, ctx.thorough)
         if rejected is None:
             # outside the evaluable subset: fall back to the syntactic classification
             r = folds_case(model, c, f)
@@ -119,7 +131,7 @@ def check(ctx, report):
             report.add('C18.R1', '%s@name[%s]' % (c.construct, name),
                        'component name %r is not recognised in the spelling(s) %s; %s' % (name, rejected[:4], insens[c.module.name]))
         else:
-            report.sample({'rule': 'C18.R1', 'class': c.name, 'name': name, 'spellings_accepted': len(case_patterns(name))}, 8)
+            report.sample({'rule': 'C18.R1', 'class': c.name, 'name': name, 'spellings_accepted': len(case_patterns(name, ctx.thorough))}, 8)
     # header field names: enum must be the case-insensitive kind and the parsed name must be lower-cased / folded
     hn = model.cls('HttpHeaderFieldName')
     report.count('C18.R1')
@@ -238,7 +250,7 @@ def whitespace_tabulation(ctx, report, spec):
     params = [a.arg for a in f.node.args.args if a.arg != 'self']
     bad = []
     try:
-        for k in range(0, 5):
+        for k in range(0, 8 if ctx.thorough else 5):
             for run in itertools.product(ws, repeat=k):
                 report.count('C18.R2')
                 w = ''.join(run).encode('ascii')
@@ -269,4 +281,4 @@ def whitespace_tabulation(ctx, report, spec):
         report.add('C18.R2', f.construct + '@whitespace-run',
                    '%d whitespace runs before a separator are not stripped completely, e.g. %r: %s (item is %d bytes)' % (len(bad), w.decode(), what, len(item)))
     else:
-        report.sample({'rule': 'C18.R2', 'whitespace_runs_tabulated': sum(len(ws) ** k for k in range(5)), 'alphabet': ws})
+        report.sample({'rule': 'C18.R2', 'whitespace_runs_tabulated': sum(len(ws) ** k for k in range(8 if ctx.thorough else 5)), 'alphabet': ws})
